@@ -384,6 +384,14 @@ theorem apply1_ne_panic (name : String) (a : Ev) (ha : ∀ i, a i ≠ .panic) (i
     · exact bind_ne_panic _ _ (ha _) fun av => bind_ne_panic _ _ (toStr_ne_panic _) fun d => joinOn_ne_panic _ _
   · split
     · simp
+    · exact bind_ne_panic _ _ (ha _) fun av => by
+        split
+        · simp
+        · split
+          · exact bind_ne_panic _ _ (toInt32_ne_panic _) fun b => bind_ne_panic _ _ (toInt32_ne_panic _) fun e => by simp
+          · simp
+  · split
+    · simp
     · exact bind_ne_panic _ _ (ha _) fun av => bind_ne_panic _ _ (toInt32_ne_panic _) fun p => by
         split
         · simp
